@@ -24,8 +24,8 @@ PROPS['C04'] = dict(
 PROPS['C16'] = dict(
     title='Inference windows tile the text exactly and respect the size limits',
     groups=[dict(template='c16_windows.rs')],
-    claim='CharString::{byte_start_end,char_byte_len,char_range_to_byte_range,get,sub,len,is_empty} against the prefix-sum oracle pre() of the run-length encoded cluster lengths (panic unreachable, no overflow); windows::char: Err iff max <= 2*ctx, otherwise the windows tile [0, len): first starts at 0, each starts where the previous ended, last ends at len, none empty, ctx_start <= window_start < window_end <= ctx_end, ctx_end - ctx_start <= max, byte fields == pre(char fields), str is exactly the context slice, terminates; windows::byte: same tiling with pre(ctx_end) - pre(ctx_start) <= max_bytes, error instead of a no-progress loop.',
-    not_covered=['windows::count_until (one itertools::fold_while expression): assumed contract, a change inside it is not detected', 'windows::windows dispatcher and Full mode; text::possible_*_substrings'],
+    claim='CharString::{byte_start_end,char_byte_len,char_range_to_byte_range,get,sub,len,is_empty} against the prefix-sum oracle pre() of the run-length encoded cluster lengths (panic unreachable, no overflow); windows::char: Err iff max <= 2*ctx, otherwise the windows tile [0, len): first starts at 0, each starts where the previous ended, last ends at len, none empty, ctx_start <= window_start < window_end <= ctx_end, ctx_end - ctx_start <= max, byte fields == pre(char fields), str is exactly the context slice, terminates; windows::byte: same tiling with pre(ctx_end) - pre(ctx_start) <= max_bytes, error instead of a no-progress loop; windows::windows: dispatches to these contracts, Full mode = one window covering the whole text with byte bounds 0..|s|.',
+    not_covered=['windows::count_until (one itertools::fold_while expression): assumed contract, a change inside it is not detected', 'text::possible_*_substrings (same index arithmetic, not under contract)'],
     assumptions=['CharString::new establishes wf (cluster lengths >= 1, sum == byte length, boundaries are char boundaries)', 'str slicing at cluster boundaries (vt_str_slice)', 'usize::from(bool)'],
     domain=['2 * context <= usize::MAX, |s| + max <= usize::MAX'],
 )
